@@ -403,6 +403,37 @@ func checkC14Body(c c14Case, compact string) error {
 		return fmt.Errorf("harness: storing the valid document: %q", clipAll(r0.Errors))
 	}
 	ft5.finish()
+	// (6) a VALID document that differs from the stored one in the last digit of a long number (an id beyond 2^53, a
+	// nanosecond timestamp) - or, without such a number, in one digit or letter anywhere: a different value. Reported in a
+	// read-only run, written by an updating one.
+	if nb := lowDigitVariant(compact); nb != "" {
+		newProcess(Mode{CI: true})
+		ft6 := newFakeT(c.Test)
+		r6 := Call{API: c.API, Doc: BS(nb), Form: "string"}.invoke(spec.build(root5), ft6)
+		ft6.finish()
+		if out, oerr := outcomeOf(r6); oerr != nil || out != oFailed {
+			return fmt.Errorf("document %q differs from the stored %q in one digit, but the read-only call ended as %q (%v)", clip(nb), clip(compact), out, oerr)
+		}
+		newProcess(Mode{Update: "true"})
+		ft6 = newFakeT(c.Test)
+		r6 = Call{API: c.API, Doc: BS(nb), Form: "bytes"}.invoke(spec.build(root5), ft6)
+		ft6.finish()
+		if out, oerr := outcomeOf(r6); oerr != nil || out != oUpdated {
+			return fmt.Errorf("document %q differs from the stored %q in one digit, but the updating call ended as %q (%v)", clip(nb), clip(compact), out, oerr)
+		}
+		var got string
+		if c.API == "sjson" {
+			got = readFile(filepath.Join(root5, spec.standalonePath(c.Test, 1, true)))
+		} else if es, _ := refParse(readFile(filepath.Join(root5, spec.multiPath()))); len(es) == 1 {
+			got = string(es[0].Body)
+		}
+		a, aerr := parseJNode(got)
+		b, _ := parseJNode(nb)
+		if aerr != nil || a.Canon() != b.Canon() {
+			return fmt.Errorf("after the update the stored text %q does not parse to the value of %q", clip(got), clip(nb))
+		}
+		compact = nb // (what the slot holds from here on)
+	}
 	lateInvalid := []string{compact + "}", compact + "]", compact + " " + compact, compact + " trailing", string(c.Invalid)}
 	if i := strings.Index(compact, `":`); i >= 0 {
 		lateInvalid = append(lateInvalid, compact[:i+1]+" "+compact[i+2:]) // the first colon is lost
@@ -478,6 +509,49 @@ func sameLengthVariants(doc string, max int) []string {
 		}
 	}
 	return out
+}
+
+// lowDigitVariant: the document with the LAST digit of its longest integer literal of 16+ digits changed; failing that, the
+// first same-length variant; "" if there is none.
+func lowDigitVariant(doc string) string {
+	best, bestLen := -1, 0
+	inStr := false
+	for i := 0; i < len(doc); i++ {
+		ch := doc[i]
+		if inStr {
+			if ch == '\\' {
+				i++
+			} else if ch == '"' {
+				inStr = false
+			}
+			continue
+		}
+		if ch == '"' {
+			inStr = true
+			continue
+		}
+		if ch >= '0' && ch <= '9' {
+			j := i
+			for j < len(doc) && doc[j] >= '0' && doc[j] <= '9' {
+				j++
+			}
+			if j-i >= 16 && j-i > bestLen && (j == len(doc) || (doc[j] != '.' && doc[j] != 'e' && doc[j] != 'E')) {
+				best, bestLen = j-1, j-i
+			}
+			i = j - 1
+		}
+	}
+	if best >= 0 {
+		b := []byte(doc)
+		b[best] = '0' + (b[best]-'0'+1)%10
+		if best+1-bestLen >= 0 && bestLen > 1 && json.Valid(b) {
+			return string(b)
+		}
+	}
+	if vs := sameLengthVariants(doc, 1); len(vs) > 0 {
+		return vs[0]
+	}
+	return ""
 }
 
 // checkC14BufferReuse: the caller keeps ONE []byte and overwrites it in place with documents of the same length
